@@ -126,7 +126,9 @@ PROPS = {
                   'C08_vote_iff', 'C08_vote_effect', 'C08_no_tally_elsewhere', 'C08_nothing_left_behind', 'C08_replayed_vote_rejected'],
         runs=[func('arith', 'arith', 2000, 40000, 'arith_mismatches', 'arith_check', fields=[1, 2, 4]),
               chain('oracle', 'oracle', 56, 2000, 'check_C08'),
-              chain('adv', 'adversarial', 24, 800, 'check_C08')],
+              chain('adv', 'adversarial', 24, 800, 'check_C08'),
+              # a chain restarted from an export at any alignment with the rounds must publish the round of its first block
+              chain('roundtrip', 'roundtrip', 32, 1000, 'check_C08', fields=[1, 2, 6, 7, 8, 9, 16, 20, 21, 36, 37, 38, 39])],
         fields=[1, 2, 6, 7, 8, 9, 16, 20, 21],
         rule="(p, W, maxmiss, h) tuples biased to round boundaries and 2^62..2^64; " + CHAIN_RULE + "; prevotes / votes at every offset of a round, wrong round ids, re-prevotes, votes that do not open the commitment, replays",
         assumptions=["signature verification and the feeder check of the ante handler are modelled as ValidateFeeder(sender, validator)"]),
